@@ -10,7 +10,7 @@ import os, re, sys, glob
 sys.path.insert(0, os.path.dirname(os.path.abspath(__file__)))
 import rustmini, gen_streams, gen_ops, gen_constants
 
-REPO = sys.argv[1] if len(sys.argv) > 1 else "/repo"
+REPO = ([a for a in sys.argv[1:] if not a.startswith("-")] or ["/repo"])[0]
 
 def sig(e):
     return str(e["toks"])
@@ -36,8 +36,16 @@ def main():
         covered.setdefault(sig(f), "T: %s (gen_streams)" % name)
         for u in used:
             covered.setdefault(sig(u), "T: inlined into %s" % name)
+    dual = {}
     for t in gen_ops.main(REPO, outdir, consts):
         covered.setdefault(sig(t["entry"]), "T: %s (gen_ops, OpsTable.v)" % t["name"])
+        if t.get("dual"):
+            # translated once per dimension-check configuration from the cfg-stripped source: matched by impl, not by tokens
+            what = t["what"]
+            m = re.match(r"impl (\w+)(?:<(\w+)>)? for Unit", what)
+            if m: dual[("Unit", m.group(1))] = t["name"]
+            m = re.match(r"Unit::(\w+)", what)
+            if m: dual[("Unit", "fn:" + m.group(1))] = t["name"]
     import gen_ref
     gen_ref.main(REPO, outdir)
     reflang = {("Terminal", "disconnect")}
@@ -47,6 +55,8 @@ def main():
     n = {"T": 0, "S": 0, "C": 0}
     for (f, key, fn, e) in sorted(rows, key=lambda r: (r[0], r[1], r[2])):
         how = covered.get(sig(e))
+        if how is None and key == "Unit" and ((key, e.get("trait")) in dual or (key, "fn:" + fn) in dual) and not (e.get("trait") == "TryFrom"):
+            how = "T: %s (gen_ops, OpsTable.v; one translation per dimension-check configuration)" % (dual.get((key, e.get("trait"))) or dual.get((key, "fn:" + fn)))
         if how is None and (key.split("<")[0], fn) in reflang:
             how = "T: RefLang translator (C09Connect.v; the free function `connect` likewise)"
         if how is None and (key.split("<")[0], fn) in formulas:
